@@ -563,6 +563,101 @@ def history_unit(p, item, tier, seed):
                         "print(bad); sys.exit(1 if bad else 0)\n")
             return
 
+
+# ---------------------------------------------------------------- canonical index helpers, argument shapes
+SHAPES = {
+    "list": "list(bits)", "tuple": "tuple(bits)", "iterator": "iter(list(bits))", "generator": "(b for b in bits)", "map": "map(lambda b: b, bits)",
+}
+
+
+def index_unit(p, item, tier, seed):
+    """input_to_canonical_index takes an Iterable: every way of handing over the same bits gives the big-endian number;
+    canonical_index_to_input and get_bit_value are its inverse and its projections."""
+    from cirbo.core import utils as U
+
+    n, shape = item
+    bits_t = [z3.Bool(f"b{i}") for i in range(n)]
+    expected = z3.Sum([z3.If(b, 1 << (n - 1 - i), 0) for i, b in enumerate(bits_t)]) if n else z3.IntVal(0)
+
+    def body():
+        bits = [SB(b) for b in bits_t]
+        return U.input_to_canonical_index(eval(SHAPES[shape], {"bits": bits}))  # noqa: S307
+
+    paths, stats = forkexec.explore(body, max_paths=4096, catch=(Exception,))
+    p.case(("c12-index", n, shape), sample=f"input_to_canonical_index over {n} symbolic bits handed over as {shape}: {stats['paths']} paths")
+    if stats["covered"]:
+        p.queries["unsat"] += 1
+    else:
+        p.error(f"coverage not proven for input_to_canonical_index {n} {shape}")
+    s = z3.Solver()
+    for path in paths:
+        s.push()
+        s.add(path.cond())
+        if path.exc is None:
+            s.add(expected != path.result)
+        r = str(s.check())
+        p.queries["unsat" if r == "unsat" else "sat" if r == "sat" else "unknown"] += 1
+        if r == "sat":
+            mod = s.model()
+            vals = [symeval.model_bool(mod, b) for b in bits_t]
+            p.violation(f"function:input_to_canonical_index:{shape}", f"input_to_canonical_index of {vals} handed over as {shape} " + (f"raised {type(path.exc).__name__}" if path.exc is not None else f"is {path.result}") + ", not the big-endian number",
+                        REPLAY_PRELUDE + "from cirbo.core import utils as U\n" + f"bits={vals!r}\nexp=int(''.join('1' if b else '0' for b in bits) or '0', 2)\n"
+                        f"try:\n    got=U.input_to_canonical_index({SHAPES[shape]})\nexcept Exception as e:\n    print(type(e).__name__, e); sys.exit(1)\nprint(got, exp); sys.exit(1 if got!=exp else 0)\n")
+            s.pop()
+            return
+        s.pop()
+    if shape == "list":
+        for j in range(1 << n):
+            back = list(U.canonical_index_to_input(j, n))
+            proj = [U.get_bit_value(j, i, n) for i in range(n)]
+            p.case(("c12-index-back", n, j))
+            if back != bits_of(j, n) or proj != bits_of(j, n):
+                p.violation("function:canonical_index_to_input", f"canonical_index_to_input({j},{n})={back}, get_bit_value bits={proj}, expected {bits_of(j, n)}",
+                            REPLAY_PRELUDE + "from cirbo.core import utils as U\n" + f"j={j}; n={n}\nexp=[bool((j>>(n-1-i))&1) for i in range(n)]\n"
+                            "bad = list(U.canonical_index_to_input(j,n))!=exp or [U.get_bit_value(j,i,n) for i in range(n)]!=exp\nprint(bad); sys.exit(1 if bad else 0)\n")
+                return
+
+
+ALIAS_SRC = """
+def alias_problems(rows):
+    # the caller keeps editing the list it built the TruthTable from: the function object must not follow
+    import copy, z3
+    from checks import c12
+    from cirbo.core.truth_table import TruthTable
+    mine = copy.deepcopy(rows)
+    f = TruthTable(mine)
+    for r in mine:
+        for j in range(len(r)):
+            r[j] = not r[j]
+    mine.reverse()
+    m, n = len(rows), (len(rows[0]).bit_length() - 1)
+    T = [[z3.BoolVal(v) for v in r] for r in rows]
+    bad = []
+    for qn, call, spec in c12.queries(n, m):
+        try:
+            if z3.is_true(z3.simplify(c12.wrong_term(T, n, spec, call(f)))):
+                bad.append(qn)
+        except Exception as e:
+            bad.append((qn, type(e).__name__))
+    return bad
+"""
+exec(ALIAS_SRC)  # noqa: S102
+
+
+def alias_unit(p, item, tier, seed):
+    n, m, lo, hi = item
+    cells = m * (1 << n)
+    for code in range(lo, hi):
+        rows = [[bool((code >> (k * (1 << n) + j)) & 1) for j in range(1 << n)] for k in range(m)]
+        bad = alias_problems(rows)  # noqa: F821
+        p.case(("c12-alias", n, m, code), sample=f"TruthTable built from a list the caller edits afterwards, table {rows}" if len(p.samples) < 2 else None)
+        p.queries["sat" if bad else "unsat"] += 1
+        if bad:
+            p.violation("function:TruthTable:follows-the-callers-list", f"TruthTable({rows}) answers {bad[:4]} differently after the caller edited its own list",
+                        REPLAY_PRELUDE + ALIAS_SRC + f"bad=alias_problems({rows!r})\nprint(bad[:6]); sys.exit(1 if bad else 0)\n")
+            return
+    assert cells <= 8
+
 # ---------------------------------------------------------------- model completion
 def completion_unit(p, item, tier, seed):
     n, m, mask = item  # mask: tuple of (k,j) don't-care positions
@@ -786,6 +881,10 @@ def run(rep, tier, seed, only=None):
                 k = 1 if (n, m) in ((1, 1), (2, 1), (1, 2)) else (6 if (n, m) != (3, 2) else 16)
                 items += [(n, m, rname, (i, k)) for i in range(k)]
         rep.pmap(shape_unit, items)
+    if sub("index"):
+        rep.pmap(index_unit, [(n, sh) for n in range(1, 7 if thorough else 6) for sh in SHAPES])
+    if sub("alias"):
+        rep.pmap(alias_unit, [(1, 1, 0, 4), (2, 1, 0, 16), (1, 2, 0, 16)] + [(2, 2, lo, lo + 32) for lo in range(0, 256, 32)])
     if sub("history"):
         rep.pmap(history_unit, [seed * 97 + k for k in range(16 if thorough else 8)])
     if sub("wide"):
